@@ -727,6 +727,26 @@ Proof. destruct p; cbn; intros H; try exact I; apply wf_netb_WF, H. Qed.
 Lemma mixed_ok_supported : forall b s v fp e, g6 fixed_F6 (mixed_config b s v e) = true ->
   mixed_outcome b s v fp e = Ok -> Supported (mixed_config b s v e).
 Proof. intros b s v fp e G H. apply (outcome_ok_supported _ G), H. Qed.
+(* the flag is independent of the order of the projections (what makes `mixed_outcome` / `pop_outcome` ignore
+   `first_plain`), the seeded assignment is not *)
+From Coq Require Import Permutation.
+Theorem flag_sticky_order_independent : forall ks ks', Permutation ks ks' -> flag_sticky ks = flag_sticky ks'.
+Proof.
+  intros ks ks' P. unfold flag_sticky. induction P; cbn.
+  - reflexivity.
+  - rewrite IHP. reflexivity.
+  - destruct (needs_ring x), (needs_ring y); reflexivity.
+  - congruence.
+Qed.
+Theorem flag_sticky_mixed : forall fp, flag_sticky (mixed_kinds fp) = true.
+Proof. destruct fp; reflexivity. Qed.
+Theorem flag_assigned_order_dependent :
+  flag_assigned (mixed_kinds true) = false /\ flag_assigned (mixed_kinds false) = true /\ Permutation (mixed_kinds true) (mixed_kinds false).
+Proof. repeat split. apply perm_swap. Qed.
+Theorem mixed_order_independent : forall b s v e, mixed_outcome b s v true e = mixed_outcome b s v false e.
+Proof. reflexivity. Qed.
+Theorem pop_order_independent : forall b s v e, pop_outcome b s v true e = pop_outcome b s v false e.
+Proof. reflexivity. Qed.
 Lemma pop_ok_supported : forall b s v fp e, g6 fixed_F6 (pop_config b s v e) = true ->
   pop_outcome b s v fp e = Ok -> Supported (pop_config b s v e).
 Proof.
@@ -1040,6 +1060,23 @@ Proof.
     unfold F3_probe, impl, verify_path. rewrite E. vm_compute. reflexivity.
   - unfold F3_probe, guard_path_not_attr. rewrite E. vm_compute. reflexivity.
 Qed.
+(* the refutations with the switch given explicitly (hold whatever the switches of Guards.v say) *)
+Theorem verify_path_before_D76 : verify_path_gen false ["label"] F3_net F3_path = Ok /\ presentb F3_net F3_path = false /\
+  verify_path_gen true ["label"] F3_net F3_path = Err EPyRates.
+Proof. repeat split. Qed.
+Definition F4_hnet0 : hnetwork := [(["c1"; "a"], [("o1", ["g"])]); (["c1"; "b"], [("o1", ["g"])])].
+Theorem short_node_value_before_D79 :
+  hier_result_gen false HNodeValue 1 F4_hnet0 ["c1"; "o1"; "g"] = Ok /\
+  wellformedb (PHier HNodeValue 1 F4_hnet0 ["c1"; "o1"; "g"]) = false /\
+  hier_result_gen true HNodeValue 1 F4_hnet0 ["c1"; "o1"; "g"] = Warn.
+Proof. repeat split. Qed.
+Theorem backend_name_before_D109 :
+  backend_result false (Some "JAX") = Ok /\ documented_backend (Some "JAX") = None /\ backend_result true (Some "JAX") = Err EPyRates.
+Proof. repeat split. Qed.
+Theorem solver_in_get_run_func_before_D113 :
+  let c := mkc BDefault SOther true DNone false true EFunc in
+  outcome_gen false c = Ok /\ accepts_gen false c = Ok /\ supportedb c = false /\ outcome_gen true c = Err EPyRates.
+Proof. repeat split. Qed.
 Lemma guard3_when_fixed : fixed_F3 = true -> forall p, guard_path_not_attr p = true.
 Proof. intros E p. unfold guard_path_not_attr. destruct p; try reflexivity; rewrite E; reflexivity. Qed.
 Lemma guard4_when_fixed : fixed_F4 = true -> forall p, guard_node_value_not_circuit p = true.
